@@ -6,6 +6,7 @@ pub mod c03;
 pub mod c05;
 pub mod c06;
 pub mod c07;
+pub mod c08;
 pub mod c09;
 pub mod c10;
 pub mod c11;
@@ -16,5 +17,5 @@ pub mod frontends;
 pub mod selftest;
 
 pub fn registry() -> Vec<Box<dyn DynProperty>> {
-    vec![entry(c01::C01), entry(c02::C02), entry(c03::C03), entry(c05::C05), entry(c06::C06), entry(c07::C07), entry(c09::C09), entry(c10::C10), entry(c11::C11), entry(c12::C12), entry(c13::C13)]
+    vec![entry(c01::C01), entry(c02::C02), entry(c03::C03), entry(c05::C05), entry(c06::C06), entry(c07::C07), entry(c08::C08), entry(c09::C09), entry(c10::C10), entry(c11::C11), entry(c12::C12), entry(c13::C13)]
 }
